@@ -26,6 +26,26 @@ RESULTS = {
  "C09-B": ("C09 (also C10)", "C09/perm-differs/load ; C10/roundtrip/inline", "quick", False, "line variant hdr-wrapped added (quoted value wrapped with a trailing backslash)"),
  "C10-A": ("C10", "C10/roundtrip/inline", "quick", False, "token class added: backslash directly in front of a line break inside quotes"),
  "C10-B": ("C10", "C10/import-cycle/file", "quick", True, ""),
+ "C11-A": ("C11", "C11/deadlock/caskethttp/basicauth.GetHtpasswdMatcher", "quick", True, ""),
+ "C11-B": ("C11", "C11/panic/on-args2-index", "quick", False, "lexical classes added: quoted blank, comment-looking and lone-quote tokens (non-empty tokens without a shell word)"),
+ "C12-A": ("C12", "C12/no-response/written+invalid-template", "quick", False, "new behaviour class: status + Content-Length + validators + a body that is not a valid template; only well-formedness is judged where templates executes the body"),
+ "C12-B": ("C12", "C12/concurrent/body-of-another-request", "quick (detected in about 3 of 4 quick runs; thorough runs 10x the rounds)", False, "new concurrent battery in a child process: overlapping requests with distinct large bodies through templates/gzip sites, one slow reader per round whose response is still being sent while two waves of peers are handled"),
+ "C13-A": ("C13", "C13/handler-panic", "quick", True, ""),
+ "C13-B": ("C13", "C13/ext-file-not-routed", "quick", True, ""),
+ "C14-A": ("C14", "C14/conns-out-of-range, C14/max_conns-overshoot", "quick", True, ""),
+ "C14-B": ("C14", "C14/fails-lost, C14/not-down-with-max_fails-unexpired", "quick", False, "down-ness rounds now also run with an active health check whose probes always pass (25 ms interval) between the failures and their expiry"),
+ "C15-A": ("C15", "C15/tls-enabled-on-http-site", "quick", True, ""),
+ "C15-B": ("C15", "C15/redirect-changes-host/concurrent", "quick", False, "concurrent pass: wildcard / catch-all redirect sites are driven from 4 goroutines with 4 different Host names at once"),
+ "C16-A": ("C16", "C16/unexpected-callback/first-startup/reload-ok", "quick", False, "every fifth history uses instances that have only non-graceful servers (nothing to hand over on reload)"),
+ "C16-B": ("C16", "C16/process-shutdown-callbacks-not-exactly-once", "quick", True, ""),
+ "C17-A": ("C17", "C17/body-passed-beyond-limit", "quick", True, ""),
+ "C17-B": ("C17", "C17/listener-timeout-zero-beats-positive", "quick", True, ""),
+ "C18-A": ("C18", "C18/concurrent-only/undecodable (+ race reports in gzip.putWriter)", "quick", True, ""),
+ "C18-B": ("C18", "C18/static-sibling-in-unoffered-coding/*", "quick", False, "Accept-Encoding alphabet extended with q=0 refusals of br/zstd/gzip next to other codings, and an absolute check that a static sibling is only served in a coding the client offered with non-zero weight (the defect is in the file server, so both twin sites misbehave identically and the differential oracle alone is blind)"),
+ "C19-A": ("C19", "C19/clienthello-split-read", "quick", False, "segmentation cases with a change_cipher_spec record directly behind the ClientHello record in the same stream (TLS 1.3), cut before / at / behind the end of the hello"),
+ "C19-B": ("C19 (also C13)", "C19/fcgi-status-out-of-range ; C13/status-out-of-range", "quick", False, "Status alphabet extended with three-character integers outside 100..999 (007, 099, -12, +99, 000)"),
+ "C20-A": ("C20", "C20/status-mismatch", "quick", True, ""),
+ "C20-B": ("C20", "C20/size-mismatch/h2", "quick", False, "new phase: the status/size oracle is repeated over HTTP/2 and HTTP/1.1 over TLS (static files via ServeContent, scripted handler bodies, error returns)"),
 }
 
 VERIFY = {}
